@@ -220,11 +220,37 @@ Definition classify (m : N * N) (l : lineid) : cls lineid :=
   end.
 (* aggregation.MatchCounter.Sample: strconv.ParseInt(increment, 10, 64) *)
 Definition unparsable (l : lineid) : bool := match atoi (snd l) with Some _ => false | None => true end.
+(* mode (2, q): an aggregating command keyed by source with the line as increment; q = command + 8 * csv:
+   command 0 histogram (-e {src} -e {0}), 1 table, 3 heatmap, 4 spark (-e c -e {src} -e {0}), 2 bargraph
+   (-e {src} -e k -e {0}), 5 reduce (-e {src} -g src={0} -a "n={sumi {.} 1}": counts the matches, its
+   aggregator never reports a parse error); csv 0 none, 1 `--csv -`, 2 `-o file` *)
+Definition agg_cmd (m : N * N) : N := N.modulo (snd m) 8.
+Definition agg_csv (m : N * N) : N := N.div (snd m) 8.
+Definition is_reduce (m : N * N) : bool := N.eqb (agg_cmd m) 5.
 Definition parse_errors (m : N * N) (keys : list lineid) : nat :=
-  match fst m with 2%N => length (filter unparsable keys) | _ => 0 end.
+  match fst m with 2%N => if is_reduce m then 0 else length (filter unparsable keys) | _ => 0 end.
 
-(* observables: the matches printed (filter; the histogram's drawing is not observed), exit status,
-   number of [Log] lines on stderr *)
+(* what the aggregators hold at the end, per key (= source): the sum of the parsable increments
+   (MatchCounter / SubKeyCounter / TableAggregator: SampleValue is only reached for a parsable one),
+   or the number of matches (reduce) *)
+Fixpoint bump (s : bytes) (z : Z) (l : list (bytes * Z)) : list (bytes * Z) :=
+  match l with
+  | [] => [(s, z)]
+  | (s', v) :: r => if bytes_eqb s s' then (s', (v + z)%Z) :: r else (s', v) :: bump s z r
+  end.
+Definition agg_rows (count_only : bool) (keys : list lineid) : list (bytes * Z) :=
+  fold_left (fun acc (l : lineid) =>
+               if count_only then bump (fst (fst l)) 1%Z acc
+               else match atoi (snd l) with Some z => bump (fst (fst l)) z acc | None => acc end) keys [].
+(* the data rows of the csv export (pkg/csv/aggWriters.go: one row per key, "key,value"), as (key, 0, decimal value) *)
+Definition csv_lines (m : N * N) (keys : list lineid) : list lineid :=
+  match fst m with
+  | 2%N => if N.eqb (agg_csv m) 0 then [] else map (fun r => (fst r, 0%N, itoa (snd r))) (agg_rows (is_reduce m) keys)
+  | _ => []
+  end.
+
+(* observables: the matches printed (filter) or the rows of the csv export (aggregating commands; their
+   drawing is not observed), exit status, number of [Log] lines on stderr *)
 Record cli_obs := mkobs { co_lines : list lineid; co_exit : Z; co_nlog : nat }.
 
 Definition shown (m : N * N) (keys : list lineid) : list lineid := match fst m with 2%N => [] | _ => keys end.
@@ -237,7 +263,7 @@ Definition cli_model (i : cli_in) : cli_obs :=
       let keys := seq_keys lineid (classify (ci_mode i)) (input_of srcs) in
       let nerr := errors_of srcs in
       let npar := parse_errors (ci_mode i) keys in
-      mkobs (shown (ci_mode i) keys) (exit_code nerr npar (length keys)) (lg + exit_logs nerr npar)
+      mkobs (shown (ci_mode i) keys ++ csv_lines (ci_mode i) keys) (exit_code nerr npar (length keys)) (lg + exit_logs nerr npar)
   end.
 
 (* ---- the property's boolean form on an observed output ---- *)
@@ -296,14 +322,14 @@ Definition C06_check (i : cli_in) (o : cli_obs) : bool :=
     else
       let keys := filter (matched_b (ci_mode i)) (numbered STDIN_LIT 1%N (lines_spec (ci_stdin i))) in
       let nerr := if ci_stdin_err i then 1 else 0 in
-      lines_same (co_lines o) (shown (ci_mode i) keys) &&
+      lines_same (co_lines o) (shown (ci_mode i) keys ++ csv_lines (ci_mode i) keys) &&
       Z.eqb (co_exit o) (exit_code nerr (parse_errors (ci_mode i) keys) (length keys)) &&
       (nerr <=? co_nlog o)
   else
     let ms := spec_mentions fs glob i in
     let keys := filter (matched_b (ci_mode i)) (flat_map (spec_lines_of gunzip (ci_gunzip i)) ms) in
     let nerr := list_sum (map (spec_failed gunzip (ci_gunzip i)) ms) in
-    lines_same (co_lines o) (shown (ci_mode i) keys) &&
+    lines_same (co_lines o) (shown (ci_mode i) keys ++ csv_lines (ci_mode i) keys) &&
     Z.eqb (co_exit o) (exit_code nerr (parse_errors (ci_mode i) keys) (length keys)) &&
     (nerr <=? co_nlog o).
 End Check.
